@@ -120,6 +120,13 @@ func judgeC16(c c16Case) (string, string) {
 				return "unselected-dest-entry-touched", fmt.Sprintf("%s is not selected by the patterns, but the destination entry %s was changed or removed", top, b.Path)
 			}
 		}
+		// ... and nothing appears below a name the patterns do not select (for instance behind one of the links)
+		for _, a := range after {
+			top := strings.SplitN(a.Path, "/", 2)[0]
+			if !sel[top] && before.Find(a.Path) == nil {
+				return "unselected-dest-entry-touched", fmt.Sprintf("%s is not selected by the patterns (or not in the source at all), but %s was created below it", top, a.Path)
+			}
+		}
 		return "", ""
 	}
 	opts := []fscopy.Opt{fscopy.WithCopyInfo(ci)}
@@ -305,7 +312,7 @@ func runC16(r *evid.Run) {
 		// always-replace against a destination that conflicts at every top-level name
 		for _, in := range patternLists(1, c10Patterns) {
 			for _, ex := range patternLists(1, c10Patterns) {
-				cases = append(cases, c16Case{Tree: t, Include: in, Exclude: ex, Dst: "conflict", Repl: true})
+				cases = append(cases, c16Case{Tree: t, Include: in, Exclude: ex, Dst: "conflict", Repl: true}, c16Case{Tree: t, Include: in, Exclude: ex, Dst: "conflict"})
 			}
 		}
 		if r.Tier != "thorough" {
